@@ -111,11 +111,14 @@ CLAIMED = {
         text="Closed theorems, for every carrier with a total order, every cost function, step size, momentum and budget: a returned "
              "history lies within the bounds, starts at the starting point and ends at the returned optimum, the optimum lies within "
              "the bounds, the reported cost is the cost function at the optimum; an out-of-bounds start and running out of iterations "
-             "are errors, never values. The model is compared BIT-EXACTLY (binary64) with the real Optimizer.gradient_descent on "
+             "are errors, never values. The arithmetic and the tests of the loop (new velocity, next value, clipping, 'hit a bound', "
+             "'converged', 'start within bounds', the finite-difference gradient) are TRANSLATED from analysis.py on every run "
+             "(GenGradDescent.v, terms over an abstract carrier); the control skeleton around them is checked statement by statement "
+             "(fail closed). The model is compared BIT-EXACTLY (binary64) with the real Optimizer.gradient_descent on "
              "four families of float cost functions; the minimize() wrapper is checked against the theorems' conclusions.",
         design_ref="DESIGN.md section 5 C20",
-        note="Trusted: Coq kernel and its primitive floats (vm_compute); hypotheses exclude NaN from the cost function.",
-        technique="Coq invariant proof over an abstract ordered carrier + bit-exact float correspondence",
+        note="Trusted: Coq kernel and its primitive floats (vm_compute); hypotheses exclude NaN from the cost function; translator/gen_graddesc.py.",
+        technique="Coq invariant proof over an abstract ordered carrier, loop terms translated from the source + bit-exact float correspondence",
     ),
     "C15": dict(
         category="proof",
